@@ -11,7 +11,7 @@ Driver requests for C13 (values built programmatically).
   (value <indent> <t|f inline> ctx)  -> (ok <hex-text> <read> <inDomain> <readable> <avoids>)   read := none | (some data)
   (readdata <hex-text>)              -> none | (some data)
   (readbinding <hex-text>)           -> none | (some <hexkey> data)
-  data   := null | (b t|f) | (i n) | (f <t|f neg> <hex tok>) | (s <hex>) | (l data…) | (a (<hexkey> data)…)
+  data   := null | (b t|f) | (i n) | (f <t|f neg> <hex "<mant>e<exp>">) | (s <hex>) | (l data…) | (a (<hexkey> data)…)
 -/
 namespace Nima.Drv.Value
 open Nima
@@ -44,7 +44,7 @@ partial def encData : Data → SExp
   | .null => .atom "null"
   | .bool b => .list [.atom "b", sBool b]
   | .int i => .list [.atom "i", .atom (toString i)]
-  | .float neg t => .list [.atom "f", sBool neg, sText t]
+  | .float neg v => .list [.atom "f", sBool neg, sText (toString v.mant ++ "e" ++ toString v.exp).toList]
   | .str s => .list [.atom "s", sText s]
   | .list xs => .list (.atom "l" :: xs.map encData)
   | .attrs kvs => .list (.atom "a" :: kvs.map fun kv => .list [sText kv.1, encData kv.2])
